@@ -386,9 +386,8 @@ def small_scope_cases():
                         for mode in MODES:
                             parts = []
                             for pi, (d, v, s) in enumerate([(d0, v0, s0), (d1, v1, s1)]):
-                                els = [{"cls": "Measure", "s": 0, "e": 4 * d, "number": 1},
-                                       {"cls": "Note", "s": 0, "e": d, "voice": v[0], "staff": s[0], "pitch": 60 + pi},
-                                       {"cls": "Note", "s": 1, "e": 1 + d, "voice": v[1], "staff": s[1], "pitch": 64 + pi}]
+                                els = [{"cls": "Note", "s": 0, "e": d, "voice": v[0], "staff": s[0], "pitch": 60 + pi},
+                                       {"cls": "Note", "s": d, "e": 2 * d, "voice": v[1], "staff": s[1], "pitch": 64 + pi}]
                                 parts.append({"id": "P%d" % pi, "divs": d, "elems": els})
                             out.append({"mode": mode, "container": {"type": "list", "tree": [0, 1]}, "parts": parts, "pickup": False})
     return out
@@ -946,10 +945,10 @@ def run(ctx):
     nv0 = len(ctx.violations)
     rng = ctx.rng
     cases = [("corpus", c) for c in corpus_cases()]
-    for k in range(110 if quick else 2000):
+    for k in range(110 if quick else 1500):
         cases.append(("random", gen_case(rng)))
     for mode in MODES:          # weight on the corner the property singles out, in every mode
-        for k in range(8 if quick else 60):
+        for k in range(8 if quick else 40):
             cases.append(("random", gen_case(rng, mode=mode)))
     ss = small_scope_cases()
     if quick:
